@@ -21,9 +21,9 @@ PID = "C13"
 META = {
     "ready": True,
     "category": "proof",
-    "technique": "Lean 4 model of steel's syntax-rules machinery (pattern compilation, match_list_pattern, collect_bindings, definition-time ## renaming, ReplaceExpressions, Expander) + R7RS/Kohlbecker specification; theorems about matching/instantiation, positive binder-hygiene and referential-transparency theorems by induction over the model's own functions, the guarded hygiene statement with decided negation witnesses; differential runs real SteelMacro / real Engine vs model vs specification, with the guard G evaluated by the driver on every program",
-    "level_text": "Proved for all patterns / forms / programs (SteelVerif/C13/Props.lean, induction, no bounds): match_exact, match_complete, match_literal, expand_fuel_mono (as before). NEW, positive hygiene: introduced_binders_fresh (every binder position of a stored template - define/lambda parameters, let and named-let binders - is spelled ##..., hence distinct from every identifier of a macro use whose identifiers do not begin with ##); reader_rejects_double_hash (C12 lexer model: a token beginning with ## is a lexical error, so source identifiers satisfy that hypothesis; the real reader is run on a generated ## stream on every run); expansion_names (one expansion step = collect_bindings + IntroducedByMacro + replace_identifiers, any ellipsis depth: every identifier of the expansion is an identifier of the use's arguments, a non-binder atom of the stored template, or ##-prefixed; also evaluated on the REAL expansion of every unit case); hygiene_user_binders / hygiene_user_binders_src (the same invariant for whole programs as the reader produces them: nested uses, recursive macros, expansion to fixed point, any fuel, NO guard - every identifier of the expanded program not beginning with ## is an identifier the user wrote or a non-binder atom of a stored template, and all binders of all stored templates carry ##); user_forms_not_captured and user_form_meaning_unchanged (the resolution of a user identifier, and the whole canonical form - binders renamed to nesting level, references resolved as steel does after expansion - of a user sub-form are independent of the ##-binders in scope: template binders never capture user identifiers); template_free_ids_resolve_globally (under G.a a free identifier of the template is instantiated unchanged, still flagged unresolved, and resolves to the definition-site global in every environment whose binders of that spelling are plain use-site binders with the flag not lost); G_iff (G = conjunction of the six negated class predicates K13a,b,c,d,f,g); not_hygiene_a..d: the full statement is false, one decided witness per violated conjunct. STILL NOT proved: hygiene_partial (G prog -> M expansion alpha-equivalent to the ideal expansion S; statement kept as HygienePartial): missing are the agreement of M's matcher/instantiator with the R7RS one on arbitrary templates, the simulation between ##-names of several template instances and S's per-step stamps under G.b, and the scoping argument under G.d. Inside G the full statement rests on the differential run: real SteelMacro vs model (exact expansion text) and vs R7RS specification on generated pattern/form pairs, real Engine vs model vs specification (values that reveal which binding each identifier resolved to) on generated programs; any real != S inside G is a VIOLATION.",
-    "level_note": "Trusted: Lean kernel, harness/driver/comparison, hand-written model (tied to /repo by the unit- and program-level correspondence on every run). The guard that decides is the Lean one (classify, printed by the driver per program); the python mirror is a static over-approximation, checked to contain the driver's class on every program, and is never used to excuse a disagreement. Modules, kernel (defmacro) macros, vectors/strings/quote patterns, set! and syntax-case are not modelled; canonRef (resolution after expansion, incl. the lost `unresolved` flag of the spelling `list`) is a model of compiler/passes/shadow.rs observed on the engine, not translated from it.",
+    "technique": "Lean 4 model of steel's syntax-rules machinery (pattern compilation, match_list_pattern, collect_bindings, definition-time ## renaming, ReplaceExpressions, Expander) + R7RS/Kohlbecker specification; theorems about matching/instantiation (incl. agreement of steel's matcher and instantiator with the R7RS ones), positive binder-hygiene, scoping and referential-transparency theorems by induction over the model's own functions, the guarded hygiene statement with decided negation witnesses; differential runs real SteelMacro / real Engine vs model vs specification, with the guard G evaluated by the driver on every program",
+    "level_text": "Proved for all patterns / forms / programs (SteelVerif/C13/Props.lean, induction, no bounds): match_exact, match_complete, match_literal, expand_fuel_mono. Positive hygiene: introduced_binders_fresh (every binder position of a stored template is spelled ##..., distinct from every identifier of a macro use); reader_rejects_double_hash (C12 lexer model; the real reader is run on a generated ## stream on every run); expansion_names (one expansion step only produces identifiers of the use's arguments, non-binder atoms of the stored template, or ##-names; also evaluated on the REAL expansion of every unit case); hygiene_user_binders / hygiene_user_binders_src (the same invariant for whole programs: nested uses, recursion, expansion to fixed point, NO guard); user_forms_not_captured and user_form_meaning_unchanged (the resolution of a user identifier and the canonical form of a user sub-form do not depend on the ##-binders in scope); template_free_ids_resolve_globally (under G.a a template's free identifier resolves to the definition-site global); scoping_under_Gd (when flag d is not raised, every ##-name that occurs in a stored template outside the lexical scope of every binder of its spelling is a mangled pattern variable: template-introduced ##x only occur in the scope of a binder ##x - alignment of the renaming's single unscoped state with lexical scoping, all templates). Agreement with R7RS: match_spec (for EVERY well-formed pattern list - nesting, literals, constants, one ellipsis per list over any sub-pattern, dotted tails - steel's match_list_pattern + collect_bindings succeeding implies the R7RS matcher succeeds with the same bindings, steel's nested lists being the flattening of the binding trees); instantiate_agree / instantiate_spec_partial (on templates in which every ellipsis follows an identifier, at most one per list, any nesting and improper lists, steel's ReplaceExpressions and the R7RS instantiator agree up to the expander flags whenever both succeed). G_iff (G = conjunction of the seven negated class predicates K13a,b,c,d,f,g,j); not_hygiene_a..d,j: the full statement is false, one decided witness per violated conjunct (j: a template list with two ellipses - found through the case split of instantiate_agree, replayed on the real engine). STILL NOT proved: hygiene_partial (G prog -> M expansion alpha-equivalent to the ideal expansion S; kept as HygienePartial) and the full InstantiateSpec: missing are the instantiator agreement for sub-templates followed by an ellipsis and the success direction, the correspondence stored template (##-names, flags) vs stamped template together with the canon simulation for one instance (single-level hygiene), and the simulation between the ##-names of several instances and S's per-step stamps under G.b. Inside G the full statement rests on the differential run: real SteelMacro vs model (exact expansion text) and vs R7RS specification on generated pattern/form pairs, real Engine vs model vs specification (values that reveal which binding each identifier resolved to) on generated programs; any real != S inside G is a VIOLATION.",
+    "level_note": "Trusted: Lean kernel, harness/driver/comparison, hand-written model (tied to /repo by the unit- and program-level correspondence on every run). The guard that decides is the Lean one (classify, printed by the driver per program); the python mirror is a static over-approximation, checked to contain the driver's class on every program, and is never used to excuse a disagreement. Modules, kernel (defmacro) macros, vectors/strings/quote patterns, set! and syntax-case are not modelled; canonRef (resolution after expansion, incl. the lost `unresolved` flag of the spelling `list`) is a model of compiler/passes/shadow.rs observed on the engine, not translated from it - the thorough tier shows one program family (findings/C13-K13k.txt) on which the real engine resolves a template's `list` dynamically, differently from this model. Proposed findings K13j / K13k are not yet listed in KNOWN_FINDINGS.txt (generator kind `twoell` is switched on by the K13j entry).",
 }
 
 FINDING_CLASSES = {
